@@ -312,7 +312,14 @@ func runC13(c *Ctx) {
 		for i := 0; i < n; i++ {
 			sk, _ := ecdsa.CreateKey(cv, new(big.Int).Mod(new(big.Int).SetBytes(r.Bytes(sz)), N).Bytes())
 			std := &stdecdsa.PublicKey{Curve: cv, X: sk.X, Y: sk.Y}
-			digest := r.Bytes([]int{0, 1, 20, 28, 32, 48, 64, 66, 100, 128}[i%10])
+			// every digest length class is reached on every curve also with six keys: the offset moves with the curve
+			// and the seed; digests longer than the order get both a low and a high leading byte
+			digLens := []int{0, 1, 20, 28, 32, 48, 64, 66, 100, 128}
+			digest := r.Bytes(digLens[(i+int(c.Seed)+3*len(cn))%10])
+			if i%3 == 1 {
+				digest = r.Bytes([]int{sz, sz + 1, 2 * sz, 128}[(i/3)%4])
+				digest[0] = []byte{0x00, 0x01, 0x7f, 0x80, 0xff}[(i/3+int(c.Seed))%5]
+			}
 			if i%13 == 5 {
 				digest = bytes.Repeat([]byte{0xff}, 64)
 			}
@@ -398,6 +405,26 @@ func runC13(c *Ctx) {
 		c.Run("c13.entropy", cn, "-1", "0")
 		c.Run("c13.entropy", cn, "-1", "1")
 	}
+}
+
+// (t little-endian, encoding of [t]B) for small and limb-boundary t, computed independently (pure-Python Edwards arithmetic)
+var edSmallMultiples = [][2]string{
+	{"0100000000000000000000000000000000000000000000000000000000000000", "5866666666666666666666666666666666666666666666666666666666666666"},
+	{"0200000000000000000000000000000000000000000000000000000000000000", "c9a3f86aae465f0e56513864510f3997561fa2c9e85ea21dc2292309f3cd6022"},
+	{"0300000000000000000000000000000000000000000000000000000000000000", "d4b4f5784868c3020403246717ec169ff79e26608ea126a1ab69ee77d1b16712"},
+	{"0500000000000000000000000000000000000000000000000000000000000000", "edc876d6831fd2105d0b4389ca2e283166469289146e2ce06faefe98b22548df"},
+	{"7f00000000000000000000000000000000000000000000000000000000000000", "2cce2b1abc87d277d7f71df10ac130eca59c851059b6fc3624baa73ceeaa4ab8"},
+	{"0000008000000000000000000000000000000000000000000000000000000000", "82e7f6ba53840aa334ff3ca36aa137eaddb695b37819761e552f772e7fc1ea5e"},
+	{"0100000001000000000000000000000000000000000000000000000000000000", "2e5493f5104299689399fb5ad157638400d6973fa492e38df6ed92d4b0cf5e86"},
+	{"0000000000000040000000000000000000000000000000000000000000000000", "e0b5001d2a6faf79862fa65a93d1feae3aeedb7c61be7c01f9fe52dcd852a3c2"},
+	{"ffffffffffffff7f000000000000000000000000000000000000000000000000", "84156203d50ab1ca3f2c9f01c49ac5e5d88aa60b95619039978a071c0d918825"},
+	{"0000000000000080000000000000000000000000000000000000000000000000", "89f98007cf3fb3e9e745443d2a7ce9e4165c5e651cc77dc67afb43ee25764672"},
+	{"3930000000000080000000000000000000000000000000000000000000000000", "d3e93e43154dbc93e777346e1e0e4c02ba14ce841d43e9725e15bacfde3bc9ce"},
+	{"ffffffffffffffff000000000000000000000000000000000000000000000000", "e185757a3fdc6519a6e7bebd97aa52bdc999e4c87d5c3aad0d995763ab6c6985"},
+	{"0000000000000000010000000000000000000000000000000000000000000000", "1353e48257fa1e8f062b90ba08b610544f7c1b26edda6bdd25d04eea42bb2503"},
+	{"0100000000000000010000000000000000000000000000000000000000000000", "465e51fe1dbfe5e59b950d67f8d1b55aa1932cc3de0e97852d7feaab3e473018"},
+	{"0000000000000000000000001000000000000000000000000000000000000000", "dc8eebc6bfdd117be747e6cee7b6c5e88adc4b57153b66ca89a3fdac0de11dfa"},
+	{"0000000000000000000000000000004000000000000000000000000000000000", "485f27905c0242ad78475cb57e088500fa7ffdfde70911f27e1b386c356d3366"},
 }
 
 func runC14(c *Ctx) {
@@ -498,6 +525,27 @@ func runC14(c *Ctx) {
 			verify("small-A", A, msg, sig)
 		}
 		verify("random-pk", r.Bytes(32), msg, sig)
+	}
+	// signatures that verify and whose S is small: public key = the identity (so [k]A vanishes), R = [t]B, S = t.
+	// Then S + L, S + 2L … are the same scalar in non-canonical form, which crypto/ed25519 refuses.
+	ident := unhx("0100000000000000000000000000000000000000000000000000000000000000")
+	two256 := new(big.Int).Lsh(big.NewInt(1), 256)
+	for _, tm := range edSmallMultiples {
+		tLE, R := unhx(tm[0]), unhx(tm[1])
+		t := new(big.Int).SetBytes(func() []byte { b := append([]byte{}, tLE...); for i, j := 0, 31; i < j; i, j = i+1, j-1 { b[i], b[j] = b[j], b[i] }; return b }())
+		msg := r.Bytes(r.IntN(40))
+		mk := func(x *big.Int) []byte { return append(append([]byte{}, R...), le(x)...) }
+		in := map[string]any{"t": tm[0], "R": tm[1]}
+		c.Direct(stded.Verify(ident, msg, mk(t)), "harness: the small-S signature is not valid in crypto/ed25519", in)
+		verify("smallS", ident, msg, mk(t))
+		for k := int64(1); k <= 15; k++ {
+			x := new(big.Int).Add(t, new(big.Int).Mul(big.NewInt(k), L))
+			if x.Cmp(two256) >= 0 {
+				break
+			}
+			verify(fmt.Sprintf("smallS+%dL", k), ident, msg, mk(x))
+		}
+		verify("smallS-1", ident, msg, mk(new(big.Int).Sub(t, big.NewInt(1))))
 	}
 	// entropy reader: consumed identically, error returned
 	for pos := 0; pos <= 34; pos++ {
